@@ -86,6 +86,16 @@ def fsreal_check(c, seed, n):
                 ops.append({"at_ms": t, "op": "remove", "path": existing.pop(r.randrange(len(existing)))})
             t += gap
         cases.append({"id": i, "watcher": watcher, "throttle_ms": r.choice([0, 50, 100]), "ops": ops, "tail_ms": 600})
+    # the watched set changes while running (same root with the recursive flag toggled; a recursive root replaced by a nested directory):
+    # a file created afterwards under a path the configuration says is watched is reported and reaches the handler
+    for watcher in ("native", "poll"):
+        g = 250 if watcher == "native" else 400
+        for entries, target in (([{"path": "", "recursive": False}], "top.txt"), ([{"path": "sub", "recursive": True}], "sub/inner.txt"),
+                                ([{"path": "", "recursive": True}, {"path": "sub", "recursive": False}], "sub/again.txt")):
+            cases.append({"id": len(cases), "watcher": watcher, "throttle_ms": 50, "tail_ms": 700, "ops": [
+                {"at_ms": 300, "op": "mkdir", "path": "sub"}, {"at_ms": 300 + g, "op": "repath", "entries": entries},
+                {"at_ms": 300 + 3 * g, "op": "create", "path": target}]})
+    n = len(cases)
     d = scratch("fsreal")
     procs = min(6, n)
     chunks = [cases[i::procs] for i in range(procs)]
@@ -120,6 +130,16 @@ def fsreal_check(c, seed, n):
         if rejected & set(delivered):
             ok = False
             c.failing.append({"case": brief, "impl": sorted(rejected & set(delivered))[:3], "clause": "C01_rejected_never: a rejected filesystem event reached the handler"})
+        # a file created (and left in place for at least one gap) under the watched root is reported at least once
+        later = {}
+        for k, op in enumerate(case["ops"]):
+            if op["op"] == "create":
+                nxt = [q for q in case["ops"][k + 1:] if q.get("path") == op["path"] or q.get("path", "x") in op["path"]]
+                full = o["dir"] + "/" + op["path"]
+                if not nxt and not any(full in l["key"] for l in filt):
+                    ok = False
+                    c.failing.append({"case": brief, "impl": {"filter_saw": sorted({l["key"] for l in filt})[:6]},
+                                      "clause": f"C01_conservation: the creation of {op['path']} under a watched path was never reported, so it reached no batch"})
         if any(not l["keys"] for l in o["log"] if l["k"] == "batch"):
             ok = False
             c.failing.append({"case": brief, "impl": "empty batch", "clause": "C01_no_empty_batch (real filesystem events)"})
